@@ -97,3 +97,15 @@ Definition obj_tick (cfg : config) (tl : timeline) (tr : track) : timeline * lis
   | TRaise => (tl1, c, TickRaise, tr1)
   | TOutOfFuel => (tl1, c, TickFuel, tr1)
   end.
+
+(** * Track.perform_event: the branches that are NOT translated   (trusted)
+   The two guards (`if not event.active`, `if self.is_muted`), the dispatch on event.type and the control / program-change
+   branches are read from the source (Generated/TablesTrack.v src_track_perform_event).  The action branch (the try/except
+   around the callback: the callback itself runs in obj_tick) and the note branch (the voice loop, Model.v perform_voices)
+   are the model's, taken over as they are. *)
+Definition perform_action (self : track) (calls : list call) (n : nat) (cb : nat) : track * list call * nat * performed :=
+  (self, calls ++ [CCallback cb], n, PfCallback cb).
+Definition perform_note (fail : option nat) (nowT : Z) (self : track) (calls : list call) (n : nat) (vs : list voice)
+  : track * list call * nat * performed :=
+  let '(offs, c, n', ok) := perform_voices fail nowT (t_cur self) vs n (t_offs self) [] in
+  (set_offs self offs, calls ++ c, n', if ok then PfOk else PfRaise).
